@@ -14,7 +14,9 @@ in : kwargs  <keywords in call order> <consumed>
      closure <a>b,…> <start> <choices>
      memo    <hashable keys> <keys whose value is None> <queries>
      hist    <world> <tobjs> <ranks> <fuel> <history> <query>
-             world  p.a.v:member/member;…   member = atom+atom   atom = T | F | A | Sp.a.v
+             world  p.a.v:member/member;…   member = atom+atom   atom = T | F | A | Btv.b | Sp.a.v
+     unify   <map|map|…>   map = tv:b.b;tv:b
+     caches               the registry of per-Checker containers with their kinds
              tobjs  v=t,…    ranks  p.t=r,…    query  n<p>.<a>.<v> | x<p>.<a>.<v>
      memo    … a 4th field lists the keys already in the table
      cls     <hint> <message a> <message b>
@@ -55,6 +57,7 @@ def showMember : Member → String
 def parseAtom (s : String) : Option Atom :=
   if s == "T" then some (.const true) else if s == "F" then some (.const false)
   else if s == "A" then some .anyOk
+  else if s.startsWith "B" then (parsePair "." (s.drop 1).toString).map fun tb => .bound tb.1 tb.2
   else if s.startsWith "S" then (parseTriple (s.drop 1).toString).map fun t => .sub t.1 t.2.1 t.2.2
   else none
 
@@ -87,6 +90,23 @@ def parseQuery (s : String) : Option Query :=
 
 def orNone (o : Option String) : String := o.getD "-"
 
+/-- `tv:b.b;tv:b` — a bounds map; `-` = error. -/
+def showBMap (m : BMap) : String :=
+  ";".intercalate (m.map fun e => s!"{e.1}:{".".intercalate (e.2.map toString)}")
+
+def showAns : Ans → String
+  | none => "-"
+  | some m => "{" ++ showBMap m ++ "}"
+
+def parseBMap (s : String) : Option BMap :=
+  (if s.isEmpty then [] else s.splitOn ";").mapM fun e =>
+    match e.splitOn ":" with
+    | [tv, bs] => do
+      let tv ← tv.toNat?
+      let bs ← (if bs.isEmpty then [] else bs.splitOn ".").mapM (·.toNat?)
+      some (tv, bs)
+    | _ => none
+
 /-- `variant` = which cache-key repairs the implementation under check has (mode, generic
 arguments, no caching under assumptions), as three 0/1 characters; `110` = the code in /repo (model
 `check`, classes printed); any other variant runs `check2` and every dependence is outside the
@@ -101,7 +121,7 @@ def histLine (reqs tobjs ranks fuel hist query variant : String) : String :=
       let ans := answers W fuel {} (h ++ [q])
       let fresh := answerFresh W fuel q
       let freshAll := (h ++ [q]).map fun q' => answerFresh W fuel q'
-      s!"ans={String.join (ans.map b01)} fresh={b01 fresh} freshAll={String.join (freshAll.map b01)} {common} D={historyClass W rkf fuel h q}"
+      s!"ans={String.join (ans.map fun x => b01 x.isSome)} fresh={b01 fresh.isSome} freshAll={String.join (freshAll.map fun x => b01 x.isSome)} {common} D={historyClass W rkf fuel h q} bm={"/".intercalate (ans.map showAns)} bmFresh={"/".intercalate (freshAll.map showAns)}"
     else
       match variant.toList with
       | [m, a, t] =>
@@ -111,7 +131,7 @@ def histLine (reqs tobjs ranks fuel hist query variant : String) : String :=
         let ans := answers2 W mk ak to fuel {} (h ++ [q])
         let fresh := answerAfter2 W mk ak to fuel [] q
         let freshAll := (h ++ [q]).map fun q' => answerAfter2 W mk ak to fuel [] q'
-        s!"ans={String.join (ans.map b01)} fresh={b01 fresh} freshAll={String.join (freshAll.map b01)} {common} D=-"
+        s!"ans={String.join (ans.map fun x => b01 x.isSome)} fresh={b01 fresh.isSome} freshAll={String.join (freshAll.map fun x => b01 x.isSome)} {common} D=- bm={"/".intercalate (ans.map showAns)} bmFresh={"/".intercalate (freshAll.map showAns)}"
       | _ => "bad-op"
   | _, _, _, _, _ => "bad-op"
 
@@ -178,6 +198,12 @@ def handle (line : String) : String :=
     | _, _, _, _ => "bad-op"
   | ["hist", reqs, tobjs, ranks, fuel, hist, query] => histLine reqs tobjs ranks fuel hist query "110"
   | ["hist", reqs, tobjs, ranks, fuel, hist, query, variant] => histLine reqs tobjs ranks fuel hist query variant
+  | ["caches"] =>
+    "caches=" ++ ",".intercalate (modelledCaches.map fun m => s!"{m.2.1}.{m.2.2.1}:{m.2.2.2.name}")
+  | ["unify", maps] =>
+    match (if maps.isEmpty then [] else maps.splitOn "|").mapM parseBMap with
+    | some ms => s!"out={showBMap (unifyBM ms)}"
+    | none => "bad-op"
   | ["cls", hint, a, b] => s!"D={orderClass hint a b}"
   | _ => "bad-op"
 
